@@ -130,7 +130,9 @@ end
 
 /-- `s[-1] == '*'` then `s[:-1] + value` -/
 def starSubst (s v : String) : String :=
-  if s.endsWith "*" then (s.dropEnd 1).toString ++ v else s
+  match s.toList.reverse with
+  | '*' :: r => String.ofList r.reverse ++ v
+  | _ => s
 
 mutual
 /-- `replace_star_with_str(obj, value)` -/
@@ -163,8 +165,27 @@ def pyRange : List Int → Option (List Int)
     else none
   | _ => none
 
+/-- split a character list at every `:` -/
+def splitColon : List Char → List (List Char)
+  | [] => [[]]
+  | c :: cs =>
+    match splitColon cs with
+    | [] => [[]]       -- unreachable
+    | w :: ws => if c = ':' then [] :: w :: ws else (c :: w) :: ws
+
+def digitsToNat : List Char → Nat → Option Nat
+  | [], acc => some acc
+  | c :: cs, acc => if c.isDigit then digitsToNat cs (acc * 10 + (c.toNat - '0'.toNat)) else none
+
+/-- `int(s)` for plain decimal literals (optional sign, at least one digit) -/
+def parseIntChars : List Char → Option Int
+  | [] => none
+  | '-' :: (d :: ds) => (digitsToNat (d :: ds) 0).map fun n => -(n : Int)
+  | '+' :: (d :: ds) => (digitsToNat (d :: ds) 0).map fun n => (n : Int)
+  | cs => (digitsToNat cs 0).map fun n => (n : Int)
+
 /-- `list(map(int, s.split(':')))` for plain decimal literals -/
-def parseRange (s : String) : Option (List Int) := (s.splitOn ":").mapM String.toInt?
+def parseRange (s : String) : Option (List Int) := (splitColon s.toList).mapM parseIntChars
 
 inductive PlateErr where
   | notInList          -- JSONParseError('plate works only when part of a list')
